@@ -141,7 +141,7 @@ Proof.
     apply doc_eq_objects; try assumption.
     rewrite !set_children_children. rewrite set_children_children in Klb. apply objmatch_pairs; [exact Klb|].
     apply (obj_walk_sound _ (compare_json_dperm true f) IH _ _ _ _ E); try assumption; [apply Ksa|apply Ksb]. }
-  injection H as _ <- <-. rewrite doc_eq_unfold, <- Et, Z.eqb_refl.
+  injection H as <- <-. rewrite doc_eq_unfold, <- Et, Z.eqb_refl.
   apply gd_eq in Ga. destruct Ga as [[Hk _] _].
   destruct Hk as [E|[E|[E|[E|[E|[E|E]]]]]]; try contradiction; rewrite E; reflexivity.
 Qed.
@@ -175,6 +175,9 @@ Proof.
   rewrite H. reflexivity.
 Qed.
 
+Lemma lookup_cons k c l : m7396_lookup k (c :: l) = if m7396_named k c then Some c else m7396_lookup k l.
+Proof. reflexivity. Qed.
+
 Lemma each_lookup rec : forall p tm, keys_ok p -> keys_ok tm ->
   keys_ok (m7396_each rec p tm) /\
   forall k, m7396_lookup (Some k) (m7396_each rec p tm) =
@@ -194,12 +197,12 @@ Proof.
     assert (Hr : m7396_lookup (Some kv) r = None) by (apply lookup_notin; rewrite <- Hkv; exact Nv).
     destruct (is_null v) eqn:En.
     + destruct (IH _ (conj Kp' Np') Kt1) as [K L]. split; [exact K|]. intro k. rewrite L.
-      unfold m7396_lookup at 2. cbn [find]. fold (m7396_lookup (Some k) r).
+      rewrite (lookup_cons (Some k) v r).
       destruct (m7396_named (Some k) v) eqn:E.
       * apply named_true in E. rewrite Hkv in E. injection E as <-. rewrite Hr, En. apply lookup_remove_same.
       * apply named_false in E. rewrite Hkv in E. assert (k <> kv) by congruence. rewrite (lookup_remove_other k kv tm H). reflexivity.
     + destruct (IH _ (conj Kp' Np') (Kt2 (rec (m7396_lookup (Some kv) tm) v))) as [K L]. split; [exact K|]. intro k. rewrite L.
-      unfold m7396_lookup at 2. cbn [find]. fold (m7396_lookup (Some k) r).
+      rewrite (lookup_cons (Some k) v r).
       destruct (m7396_named (Some k) v) eqn:E.
       * apply named_true in E. rewrite Hkv in E. injection E as <-. rewrite Hr, En.
         unfold m7396_set. rewrite lookup_app, lookup_remove_same. apply lookup_single_same.
@@ -229,13 +232,13 @@ Definition no_object_target (t : option node) : Prop :=
 Lemma target0_no_object t : no_object_target t -> m7396_target0 t = m7396_empty_object.
 Proof. destruct t as [n|]; cbn [no_object_target m7396_target0]; [intros ->|]; reflexivity. Qed.
 
-Lemma merge_into_nothing : forall v w t, sfeq v w -> gd w -> no_null_member v = true -> no_object_target t ->
+Lemma merge_into_nothing : forall v w t, sfeq v w -> gd w -> no_null_member w = true -> no_object_target t ->
   doc_eq (merge t v) w = true.
 Proof.
   induction v as [ty vs vi vd k ch IH] using node_ind'. intros w t Hs Hg Hn Ht.
   rewrite merge_unfold. destruct (is_object (Node ty vs vi vd k ch)) eqn:Eo; [|apply doc_eq_of_sfeq; assumption].
   rewrite (target0_no_object t Ht). cbn [n_children m7396_empty_object].
-  assert (Ow : is_object w = true) by (rewrite <- (sfeq_is_type _ _ _ Hs); exact Eo).
+  assert (Ow : is_object w = true) by (unfold is_object; rewrite <- (sfeq_is_type c_cJSON_Object _ _ Hs); exact Eo).
   pose proof (sfeq_children _ _ Hs) as Hc. cbn [n_children] in Hc.
   pose proof (gd_keys _ Hg Ow) as Kw.
   assert (Kc : keys_ok ch).
@@ -250,9 +253,10 @@ Proof.
     destruct (m7396_lookup (Some k') ch) as [c|] eqn:E1; destruct (m7396_lookup (Some k') (n_children w)) as [c'|] eqn:E2;
       cbn [orel] in R; try contradiction; [|exact I].
     apply lookup_some in E1. destruct E1 as [Hin _]. apply lookup_some in E2. destruct E2 as [Hin' _].
-    cbn [no_null_member] in Hn. change (tymask ty =? c_cJSON_Object) with (is_object (Node ty vs vi vd k ch)) in Hn. rewrite Eo in Hn.
-    rewrite forallb_forall in Hn. specialize (Hn c Hin). apply andb_true_iff in Hn. destruct Hn as [Hn1 Hn2].
-    apply negb_true_iff in Hn1. rewrite Hn1. rewrite doc_eq_with_key.
+    destruct w as [tw vsw viw vdw kw chw]. cbn [no_null_member] in Hn.
+    change (tymask tw =? c_cJSON_Object) with (is_object (Node tw vsw viw vdw kw chw)) in Hn. rewrite Ow in Hn.
+    cbn [n_children] in Hin'. rewrite forallb_forall in Hn. specialize (Hn c' Hin'). apply andb_true_iff in Hn. destruct Hn as [Hn1 Hn2].
+    apply negb_true_iff in Hn1. unfold is_null in *. rewrite (sfeq_is_type c_cJSON_NULL _ _ R), Hn1. rewrite doc_eq_with_key.
     rewrite Forall_forall in IH. apply IH; [exact Hin|exact R| |exact Hn2|exact I].
     apply (gd_children _ _ Hg). exact Hin'.
 Qed.
